@@ -1,6 +1,7 @@
 /-
   PyodaGen.GlueC14Z — hand-written definitions the zone-piece readers of the GENERATED codec file (PyodaGen/C14.lean:
-  `_ZoneYearOffset.read`, `_ZoneRecurrence.read`, `MapZone._read`, `TzdbZoneLocation._read`) refer to: the constructors
+  `_ZoneYearOffset.read`, `_ZoneRecurrence.read`, `MapZone._read`, `TzdbZoneLocation._read`, `_FixedDateTimeZone.read`,
+  `_StandardDaylightAlternatingMap._read`, `_PrecalculatedDateTimeZone._read`) refer to: the constructors
   they end with, on the model's structures.  Not generated.
 -/
 import PyodaModel.Codec.Windows
@@ -29,6 +30,16 @@ def mkZoneLocation (lat long : Int) (countryName countryCode zoneId comment : St
   if ¬ (strLen countryName > 0) then .error .valueError
   else if ¬ (strLen countryCode = 2) then .error .valueError
   else .ok ⟨lat, long, countryName, countryCode, zoneId, comment⟩
+
+/-- `_FixedDateTimeZone(id_=…, offset=…, name=…)`: nothing in that constructor can fail for an id that is given -/
+def mkFixedZone (id : Str) (offset : Offset) (name : Str) : FixedZone := ⟨id, offset, name⟩
+
+/-- `_PrecalculatedDateTimeZone(id_=…, intervals=…, tail_zone=…)`: the checks of `__init__` (`Codec/Tail.lean`) -/
+def mkPrecalculated (id : Str) (periods : List ZoneInterval) (tail : Option AlternatingMap) : R PrecalculatedZone :=
+  precalculatedCtor ⟨id, periods, tail⟩
+
+/-- `Offset.zero` -/
+def offsetZero : Offset := ⟨0⟩
 
 /-- `len(s)` of a `str` carried as its UTF-8 bytes: the number of code points -/
 def pyStrLen (s : Str) : Int := (strLen s : Int)
